@@ -63,6 +63,31 @@ def knn_reference(blocks, metric, k, cond):
     return val, counts
 
 
+def knn_reference_int(Xi, Yi, Zi, metric, k, cond):
+    """the same formula for INTEGER-valued samples of any size, in exact int64 arithmetic (squared distances for the Euclidean
+    metric: the order of non-negative numbers and of their squares agree); value through scipy's digamma.  None if some radius is 0."""
+    from scipy.special import digamma
+
+    def D(*blocks):
+        A = np.concatenate([np.asarray(b, dtype=np.int64) for b in blocks], axis=1)
+        diff = np.abs(A[:, None, :] - A[None, :, :])
+        return (diff * diff).sum(axis=2) if metric == "euclidean" else diff.sum(axis=2) if metric == "cityblock" else diff.max(axis=2)
+    N = len(Xi)
+    J = D(Xi, Yi, Zi) if cond else D(Xi, Yi)
+    off = ~np.eye(N, dtype=bool)
+    eps = np.array([np.sort(J[i][off[i]])[k - 1] for i in range(N)])
+    if (eps <= 0).any():
+        return None
+
+    def cnt(M):
+        return ((M < eps[:, None]) & off).sum(axis=1)
+    if cond:
+        t = digamma(cnt(D(Xi, Zi)) + 1) + digamma(cnt(D(Yi, Zi)) + 1) - digamma(cnt(D(Zi)) + 1)
+        return float(digamma(k) - math.fsum(t) / N)
+    t = digamma(cnt(D(Xi)) + 1) + digamma(cnt(D(Yi)) + 1)
+    return float(digamma(k) + digamma(N) - math.fsum(t) / N)
+
+
 def bandwidth_value(bw, N, d):
     if bw == "silverman":
         return (N * (d + 2) / 4.0) ** (-1.0 / (d + 4))
@@ -249,6 +274,7 @@ def run(chk):
         est = "knn" if t % 3 else "kde"
         if N > 1024:
             est = "knn"
+            cond = bool((t // 6) % 2)
         mk_ = lambda: (rng.integers(-2000, 2000, (N, kx + ky + kz)) / 64.0)
         W1, W2 = mk_(), mk_()
         X, Y, Z = W1[:, :kx].copy(), W1[:, kx:kx + ky].copy(), W1[:, kx + ky:].copy()
@@ -278,7 +304,8 @@ def run(chk):
         if which == "X":
             X[:] = W2[:, :kx]
         v2 = call(X, Y, Z)
-        ref2 = reference(X, Y, Z) if N <= 40 else None
+        # N > 1024 (block-wise implementations): the samples are integers / 64, so the formula is evaluated in exact integer arithmetic
+        ref2 = reference(X, Y, Z) if N <= 40 else knn_reference_int(np.rint(X * 64), np.rint(Y * 64), np.rint(Z * 64), metric, k, cond)
         chk.case(key=("hist", est, W1.tobytes(), W2.tobytes(), which, cond), nontrivial=True)
         chk.count("history.calls")
         chk.count("history.N_gt_1024" if N > 1024 else "history.small_N")
